@@ -144,4 +144,22 @@ def c19(prop, tier, res, replay=None):
         "positions in lexer error messages are not modelled; input is valid UTF-8 (the lexer rejects invalid UTF-8 at token starts)"], replay)
 
 
-TABLE = {"C18": c18, "C19": c19, "C15": c15, "C07": c07, "C20": c20, "C11": c11, "C06": c06, "C16": c16, "C10": c10, "C08": c08, "C09": c09, "C17": c17}
+PULLOPS = dict(sub="pullops", mode="pullops", family="pullops", shards=q(2, 8),
+               args=lambda tier, sd, sh: ["-seed", sd * 1000 + sh, "-traces", 25 if tier == "quick" else 150, "-steps", 150 if tier == "quick" else 300],
+               key_fields=["k", "now", "configured", "batch", "ready"])
+
+
+CRASH = dict(sub="crash", mode="crash", family="crash", shards=q(6, 16),
+             args=lambda tier, sd, sh: ["-seed", sd * 1000 + sh, "-scripts", 2 if tier == "quick" else 8, "-ops", 30 if tier == "quick" else 45,
+                                        "-points", 22 if tier == "quick" else 0, "-timed", 6 if tier == "quick" else 40, "-faults", 6 if tier == "quick" else 20],
+             key_fields=["k", "script", "kill", "failenq"])
+
+
+def c01(prop, tier, res, replay=None):
+    return pure.check_cases(prop, tier, res, [CRASH], [
+        "PROVED (Lean, every well-formed history and every crash point): with the handler programs of the model (one committed insert per target then the 202; one transaction for a publish batch then the 200; one transaction per ack/nack/dead-letter then the 204) and recovery = committed transactions, the reopened store satisfies the property predicate crashCheck. The program shapes are tied to the code by facts REGENERATED from the Go source each run (enqueue loop leaves on error, only 202 after the loop, EnqueueBatch failure leaves before the response, WAL + synchronous=FULL, commitTx checked in every transactional function)",
+        "EXERCISED on the real code: a child process serves seeded scripts of ingress fan-out / publish / dequeue / ack / nack / dead-letter requests through the real handlers on the real SQLite store (even seeds: autocommit insert path; odd seeds: the store run() wires from the compiled configuration) and is SIGKILLed at every verifhook point (begin / before commit / after commit / around the autocommit insert / between per-target enqueues / before the 202 / before the publish 200), at arbitrary instants by the parent (WAL checkpoint loop at 3 ms), and with one Store.Enqueue call refused; the parent reopens the database with the real store, runs integrity_check, dequeues everything that is due and evaluates crashCheck; it also checks that the content equals the model's recovery at some crash point of the same script",
+        "a process kill leaves the OS page cache intact: this shows atomicity and ordering of commits against process death, not fsync durability on power loss (SQLite's and the OS's, trusted); concurrent requests inside the child are not generated (the store serialises transactions on one connection); PostgreSQL and memory backends are out of scope of a restart on the same database"], replay)
+
+
+TABLE = {"C18": c18, "C01": c01, "C19": c19, "C15": c15, "C07": c07, "C20": c20, "C11": c11, "C06": c06, "C16": c16, "C10": c10, "C08": c08, "C09": c09, "C17": c17}
